@@ -91,6 +91,23 @@ theorem prefilled_abs_between_calls (p : Params) (hp : p.Valid) (i : Nat) (w : W
   rw [b4, b3.pipe]
   simp only [EncProof.pipeOf, List.map_append, rename_map_byte, rename_replicate_hole]
 
+/-- The op `post_fill`: a caller placeholder that was still pending at the hand-over (token number `k` of the
+caller, `ct[k] = some e`, its cells `hole k` in the pipe the iovec stood for) is STILL a pending backref of the
+iovec `Encoder::finish` hands back — same key, same slice index and offset: the token the caller kept is
+valid — so `backfill_or_panic(token, src)` with a source of its size does not panic, and afterwards the
+abstract cells are those of `prefilled_output_cells` with exactly that placeholder filled by `src`.  (This
+is the earliest moment safe code can fill it: `Encoder` exposes only `consumer()`, the read side.) -/
+theorem prefilled_post_fill (p : Params) (hp : p.Valid) (i : Nat) (w : World) (v : Iov) (g : List UInt8)
+    (ct : List Backref) (Q0 : Pipe) (hv : w.iov i = some v) (h0 : SimV w v g ct Q0) (calls : List ACall)
+    (k : Nat) (e : Nat × BackrefInfo) (src : List UInt8) (hk : ct[k]? = some (some e)) (hpend : Cell.hole k ∈ Q0.cells)
+    (hlen : e.2.len = src.length) :
+    ∃ w' dr v' w'' v'', encRunFrom p w i g calls = some (w', dr) ∧ w'.iov i = some v' ∧ e ∈ v'.backrefs ∧
+      w'.backfill i (some e) src = some w'' ∧ w''.iov i = some v'' ∧ IovInv w'' v'' ∧
+      dr.map Cell.byte ++ absCells w'' v'' =
+        Woodpile.Pipe.fillCells e.1
+          (g.map Cell.byte ++ absCells w v ++ (Spec.encode p (ainputOf calls)).map Cell.byte) src :=
+  encRunFrom_post_fill p hp i w v g ct Q0 hv h0 calls k e src hk hpend hlen
+
 /-- … hence decoding what the ENCODER added (everything behind the prefill), cut into any pieces and fed by
 any methods to the decoder state machine, gives back the input. -/
 theorem prefilled_roundtrip (p : Params) (hp : p.Valid) (i : Nat) (w : World) (v : Iov) (g : List UInt8)
